@@ -637,14 +637,14 @@ def transform_fn(text, spec):
             # method chains may be broken over lines and re-indented: white space is flexible between the tokens of the source text
             rx = re.compile(r'\s*'.join(re.escape(tok).replace(re.escape('{id}'), r'([A-Za-z_][A-Za-z0-9_]*)').replace(r'\.', r'\s*\.\s*')
                                          for tok in frm.split()))
-            lo = sh.popen if frm.startswith('&') or '<' in frm else sh.bopen      # type texts may sit in the parameter list
+            lo = sh.popen if frm.startswith('&') or frm.startswith('impl ') or '<' in frm else sh.bopen      # type texts may sit in the parameter list or be the return type
             hits = [mm for mm in rx.finditer(t) if lo < mm.start() < sh.bclose]
             if not hits:
                 raise ExtractError('R11: text to rewrite not found: %s' % frm)
             for mm in hits:
                 edits.append((mm.start(), mm.end(), to.replace('{id}', mm.group(1)) if '{id}' in frm else to))
             continue
-        start_at = sh.popen if frm.startswith('&') or '<' in frm else sh.bopen      # type texts may sit in the parameter list
+        start_at = sh.popen if frm.startswith('&') or frm.startswith('impl ') or '<' in frm else sh.bopen      # type texts may sit in the parameter list or be the return type
         pos = t.find(frm, start_at)
         if pos < 0 or pos > sh.bclose:
             raise ExtractError('R11: text to rewrite not found: %s' % frm)
